@@ -253,6 +253,30 @@ func (e *Environment) SetLocal(name string, val object.Object) object.Object {
 	return val
 }
 
+// Declare stores the value of a variable in the innermost scope, shadowing
+// (rather than updating) any variable of the same name in an outer scope.
+//
+// This is how function-parameters, `local` variables, and the variables of
+// a `foreach` loop come into existence.
+func (e *Environment) Declare(name string, val object.Object) object.Object {
+	if len(e.local) > 0 {
+		e.local[len(e.local)-1][name] = val
+	}
+	return val
+}
+
+// Depth returns the number of scopes which are currently open.
+func (e *Environment) Depth() int {
+	return len(e.local)
+}
+
+// Truncate closes every scope which was opened after the given depth.
+func (e *Environment) Truncate(depth int) {
+	if depth >= 0 && depth < len(e.local) {
+		e.local = e.local[:depth]
+	}
+}
+
 // SetFunction makes a (golang) function available to the scripting
 // environment.
 func (e *Environment) SetFunction(name string, fun interface{}) interface{} {
